@@ -174,6 +174,35 @@ def check_totality(ctx):
                         ctx.ok("C14.2", f.qualname, f"`{short(x, 40)}` dominated by the tuple/length test -> ValueError")
     ctx.counters["partial_operation_sites"] = n_ops
     ctx.floor("C14.2", "partial_operation_sites", 6)
+    # (vi) nothing on the construction path parses / compiles / evaluates a piece of the specification: the base of a
+    # symbolic axis is kept as text until a check evaluates it, so a malformed expression (`n+`, `2n`) cannot make
+    # `Float[Array, spec]` fail with SyntaxError (or NameError) when the annotation is built
+    PARSERS = {"compile": "SyntaxError", "eval": "SyntaxError / NameError", "exec": "SyntaxError", "ast.parse": "SyntaxError", "ast.literal_eval": "SyntaxError",
+               "parse": "SyntaxError", "literal_eval": "SyntaxError"}
+    n_parse = 0
+    for f in fs:
+        for x in walk_scope(f.node):
+            if isinstance(x, ast.Call) and norm(x.func) in PARSERS and x.args and not isinstance(x.args[0], ast.Constant):
+                if norm(x.func) in ("parse", "literal_eval"):
+                    b_ = m.resolve_name(f, x.func.id) if isinstance(x.func, ast.Name) else None
+                    if b_ is None or b_.kind != "ext" or not str(b_.target).startswith("ast."):
+                        continue
+                n_parse += 1
+                protected = False
+                for t in ast.walk(f.node):
+                    if isinstance(t, ast.Try) and any(y is x for b in t.body for y in ast.walk(b)):
+                        for h in t.handlers:
+                            names = norm(h.type) if h.type is not None else "BaseException"
+                            if any(k in names for k in ("SyntaxError", "Exception", "BaseException")) and _raises_value_error(h.body):
+                                protected = True
+                if protected:
+                    ctx.ok("C14.2", f.qualname, f"`{short(x, 40)}`: failures are turned into ValueError")
+                else:
+                    ctx.bad("C14.2", f, x, f"`{short(x, 50)}` runs while the annotation is being built: a malformed piece of the specification (e.g. the symbolic axis `n+`) makes "
+                            f"`Dtype[Array, spec]` fail with {PARSERS[norm(x.func)]} instead of being accepted as text or rejected with ValueError",
+                            construct=f"{norm(x.func)}() of a piece of the specification at construction time")
+    ctx.counters["construction_time_parsers"] = n_parse
+    ctx.ok("C14.2", root.qualname, f"{len(fs)} construction functions: {n_parse} call(s) that parse / compile a piece of the specification")
 
 
 # ------------------------------------------------------------------------ C14.3
@@ -484,12 +513,41 @@ def check_legality_matrix(ctx):
         ("trailing `#`", lambda s: isinstance(s, ast.If) and isinstance(s.test, ast.Call) and isinstance(s.test.func, ast.Attribute) and s.test.func.attr == "endswith"
             and _name(s.test.func.value) and s.test.args and _const("#")(s.test.args[0]) and _raises_value_error(s.body)),
     ]
+    g_ = None
     for label, pred in txt_checks:
         hits = [s for s in ast.walk(f.node) if pred(s)]
         if not hits:
             ctx.bad("C14.4", f, f.node, f"the documented illegal form '{label}' is no longer rejected with ValueError", construct=f"illegal form not rejected: {label}")
-        else:
-            ctx.ok("C14.4", f.qualname, f"{label} -> ValueError")
+            continue
+        ctx.ok("C14.4", f.qualname, f"{label} -> ValueError")
+        if label in ("comma-separated axes", "trailing `#`"):
+            # the test must see the token as written: once leading modifiers / a `name=` prefix have been stripped off,
+            # `#` on its own (or `*#`, `doc=#`) no longer ends in `#` and slips through as a broadcastable axis
+            if g_ is None:
+                g_ = NoReturn(m).cfg(f)
+            late = []
+            for h_ in hits:
+                tvars = {x.id for x in ast.walk(h_.test) if isinstance(x, ast.Name) and x.id in token_names}
+                tnodes = [n_ for n_ in g_.live_nodes() if n_.kind == "test" and n_.ast is h_.test]
+                loops = [lp_ for lp_ in ast.walk(f.node) if isinstance(lp_, ast.For) and any(y is h_ for b_ in lp_.body for y in ast.walk(b_))
+                         and any(isinstance(x, ast.Name) and x.id in tvars for x in ast.walk(lp_.target))]
+                if not tnodes or not loops:
+                    continue
+                hdr = [n_ for n_ in g_.live_nodes() if n_.kind == "for" and n_.ast is loops[0]]
+                if not hdr:
+                    continue
+                stores = [n_ for n_ in g_.live_nodes() if n_.kind == "stmt" and isinstance(n_.ast, (ast.Assign, ast.AugAssign)) and any(
+                    isinstance(x, ast.Name) and isinstance(x.ctx, ast.Store) and x.id in tvars for x in ast.walk(n_.ast))]
+                for sn in stores:
+                    if tnodes[0].id in g_.reach_from(sn, avoid=lambda n_: n_ is hdr[0]):
+                        late.append((h_, sn))
+                        break
+            if late and len(late) == len(hits):  # (a further test of the stripped token next to one of the raw token is harmless)
+                h_, sn = late[0]
+                ctx.bad("C14.4", f, h_, f"the test for {label} looks at the token after `{short(sn.ast, 50)}` has rewritten it: a token that only has the illegal form before "
+                        "its modifiers / `name=` prefix are stripped (e.g. `#` alone, `*#`, `doc=#`) is accepted", construct=f"{label}: tested after the token was rewritten")
+            else:
+                ctx.ok("C14.4", f.qualname, f"{label}: tested on the token as written")
     # the single-variadic rule must be reached by every variadic token, `...` included:
     # the `if variadic:` test that guards it must not be bypassed by a `continue`
     def innermost_loop(target):
